@@ -11,14 +11,14 @@ ENGINE = 'detsched'
 TECHNIQUE = 'runtime monitoring under a deterministic cooperative scheduler: the object\'s thread is held inside a handler by a cooperative gate while events are posted and published; position oracle over the linearised deque log and the resulting dispatch order'
 RULE = ('1-3 started ActiveObjects, each subscribed to a signal with queue_type lifo, fifo or the default (before start_at or after it), their '
         'threads held inside a handler by a gate; 0-5 pending events are posted (fifo), then a burst of 1-4 unique-id publications of the '
-        'subscribed signal is made and the fabric left to deliver (detsched random/PCT); the gate opens. Every delivery to a lifo subscriber '
-        'must be an appendleft on its queue (front, as post_lifo), to a fifo/default subscriber an append (back, as post_fifo), and the '
-        'dispatch order after the gate must equal the order of a deque model (lifo: last published first, then the pending events; fifo: '
-        'pending events, then publications in order). distinct_nontrivial = distinct (objects, kinds, pending, burst, subscribe-before-'
+        'subscribed signal is made and the fabric left to deliver (detsched random/PCT); the gate opens. In half of the runs a further '
+        'thread posts fifo events to every object while the fabric delivers. The dispatch order after the gate must be: lifo subscriber - '
+        'publications newest first, then the pending events, then the concurrent posts; fifo/default subscriber - pending events first, then '
+        'publications in publish order and concurrent posts in post order (the queue operations used are not prescribed). distinct_nontrivial = distinct (objects, kinds, pending, burst, subscribe-before-'
         'start) tuples x schedule')
 CASES = {'quick': 1200, 'thorough': 40000}
-BUDGET = {'quick': 50, 'thorough': 1200}
-REQUIRE = {'runs': 500, 'lifo_deliveries': 500, 'fifo_deliveries': 500, 'lifo_with_pending_events': 200}
+BUDGET = {'quick': 50, 'thorough': 300}
+REQUIRE = {'runs': 500, 'lifo_deliveries': 500, 'fifo_deliveries': 500, 'lifo_with_pending_events': 200, 'runs_with_concurrent_poster': 200}
 ASSUME = ['subscriptions of active objects (the statement); plain-deque subscribers keep the repository\'s pinned append behaviour']
 ANNOUNCE_CASES = True
 
@@ -78,10 +78,28 @@ def run_case(ctx, n):
         pend.append(mine)
       marks = [len(aosim.deque_ops(a)) for a, _ in objs]
       pubs = []
+      # in part of the runs another thread posts (fifo) to every object WHILE the fabric delivers
+      xs = [[] for _ in objs]
+      posters = []
+      if rng.random() < 0.5:
+        ctx.count('runs_with_concurrent_poster')
+        for i, (a, hist) in enumerate(objs):
+          for _ in range(rng.randint(1, 3)):
+            uid += 1
+            xs[i].append(('EVT', uid))
+
+          def post_xs(a=a, mine=xs[i]):
+            for _, u in mine:
+              a.post_fifo(Event(signal='EVT', payload=u))
+          posters.append(ds.SThread(target=post_xs))
+        for t in posters:
+          t.start()
       for _ in range(burst):
         uid += 1
         AO.ActiveFabric().publish(Event(signal='C09_PUB', payload=uid))
         pubs.append(('C09_PUB', uid))
+      for t in posters:
+        t.join()
       s.quiesce()             # fabric delivered, objects still gated
       gate[0] = True
       s.quiesce()
@@ -104,16 +122,22 @@ def run_case(ctx, n):
       ctx.count('%s_deliveries' % kind, len(deliveries))
       if kind == 'lifo' and cfg[i]['pending']:
         ctx.count('lifo_with_pending_events')
-      want_op = 'appendleft' if kind == 'lifo' else 'append'
-      wrong = [d for d in deliveries if d[0] != want_op]
-      model = collections.deque(pend[i])
-      for p in pubs:
-        (model.appendleft if kind == 'lifo' else model.append)(p)
       got = [h for h in hist.handled]
-      if wrong or got != list(model):
+      # behavioural oracle (the queue operations used are not prescribed): the dispatch order after the gate
+      if kind == 'lifo':
+        # every delivery went to the front: publications newest first, then the pending events, then concurrent fifo posts
+        expected = list(reversed(pubs)) + pend[i] + xs[i]
+        ok = got == expected
+      else:
+        # fifo: pending events first; publications in publish order and concurrent posts in post order behind them
+        rest = got[len(pend[i]):]
+        ok = (got[:len(pend[i])] == pend[i] and [x for x in rest if x[0] == 'C09_PUB'] == pubs and [x for x in rest if x[0] == 'EVT'] == xs[i]
+              and len(rest) == len(pubs) + len(xs[i]))
+        expected = pend[i] + ['<publications %r and concurrent posts %r, each in order>' % (pubs, xs[i])]
+      if not ok:
         ctx.violation('C09/%s-delivery-at-wrong-end' % kind,
-                      'object %d subscribed %s (%s start_at): deliveries were realised as %r; dispatch order after the gate %r, a deque with %s-posted deliveries gives %r' % (
-                        i, kind, 'before' if cfg[i]['before_start'] else 'after', [d[0] for d in deliveries], got, 'front' if kind == 'lifo' else 'back', list(model)), wit)
+                      'object %d subscribed %s (%s start_at), %d pending events, concurrent fifo posts %r: dispatch order after the gate %r, expected %r (queue operations seen for the deliveries: %r)' % (
+                        i, kind, 'before' if cfg[i]['before_start'] else 'after', len(pend[i]), xs[i], got, expected, [d[0] for d in deliveries]), wit)
         return
     if n < 3:
       ctx.sample(dict(wit, dispatch_orders=[h.handled for _, h in objs]))
